@@ -30,7 +30,7 @@ COMPONENTS = {
              'run family: the algorithms; store variant: SqliteDataStore + ProblemViewDataStore'],
     'stub': ['user objective with failure plan', 'PRNG seam', 'joblib', 'time.time', 'uuid1'],
 }
-PROBES_EXPECTED = ['reopened_session_readback', 'run_family', 'direct_family', 'view_readback', 'maximised_goal_optimum', 'duplicate_values', 'unsorted_tags',
+PROBES_EXPECTED = ['resynchronised_before_readback', 'reopened_session_readback', 'run_family', 'direct_family', 'view_readback', 'maximised_goal_optimum', 'duplicate_values', 'unsorted_tags',
                    'rerolled_designs', 'gd_checked', 'eps_checked', 'queried_again_after_more_recordings', 'changed_without_count_change',
                    'eps_integer_reference']
 
@@ -231,6 +231,20 @@ def _run(D):
                 v = w.problem
             else:
                 ctx.probe('view_readback')
+                if len(p.individuals) >= 3 and D.dec('cfg', 'resync_before_view', 2) == 1 and p.data_store is not None:
+                    # an individual recorded early is synchronised once more (its row is replaced where it is): a later
+                    # session still sees the individuals in the order in which they were recorded
+                    order0 = [i.id for i in W.open_view(path).individuals]
+                    early = p.individuals[D.dec('cfg', 'resync_which', max(1, len(p.individuals) // 2))]
+                    with W.quiet():
+                        p.data_store.sync_individual(early)
+                    order1 = [i.id for i in W.open_view(path).individuals]
+                    ctx.probe('resynchronised_before_readback')
+                    ctx.check()
+                    if order1 != order0:
+                        ctx.violation('population', 'Results.population', 'after individual id %d was synchronised again a later '
+                                      'session reads the individuals in the order %r..., they were recorded in the order %r...'
+                                      % (early.id, order1[:10], order0[:10]))
                 v = W.open_view(path)
             p = v
             # the view holds one individual per id: that is the recorded history it can be asked about
